@@ -132,6 +132,22 @@ def search_approx(seed, tier):
                                                                            T.SecondOrderInitialCondition(u0_2, v0_2), []),
              (xx, yy, t0), u0_2(xx, yy), v0_2(xx, yy)),
         ]
+        # the initial state is exact "for every network": also one whose raw output is huge (an untrained or diverged network)
+        class Scaled(torch.nn.Module):
+            def __init__(self, base, k):
+                super().__init__()
+                self.base, self.k = base, k
+
+            def forward(self, x):
+                return self.base(x) * self.k
+        big = rng.choice([1e6, 1e9, 1e12])
+        cases += [
+            ('approx1d/huge-network-output', T.SingleNetworkApproximator1DSpatialTemporal(Scaled(FCNN(2, 1, hidden_units=hidden), big), None,
+                                                                                           T.FirstOrderInitialCondition(u0_1), []), (xx, t0), u0_1(xx), None),
+            ('approx2d_second/huge-network-output', T.SingleNetworkApproximator2DSpatialTemporal(Scaled(FCNN(3, 1, hidden_units=hidden), big), None,
+                                                                                                 T.SecondOrderInitialCondition(u0_2, v0_2), []),
+             (xx, yy, t0), u0_2(xx, yy), v0_2(xx, yy)),
+        ]
         for name, ap, args, want, wantdot in cases:
             n_eval += 1
             try:
